@@ -950,46 +950,101 @@ func checkC02(e *Engine, r *Report) {
 		fMin := e.Field(pkgCfgBL, "BalloonDef", "MinCpus")
 		fMaxB := e.Field(pkgCfgBL, "BalloonDef", "MaxBalloons")
 		fMinB := e.Field(pkgCfgBL, "BalloonDef", "MinBalloons")
-		// the count used for the delta is a phi fed by loads of MaxCpus (under `> MaxCpus`) and MinCpus (under `< MinCpus`)
-		var delta *ssa.BinOp
-		AllInstrs(resize, func(in ssa.Instruction) {
-			if b, ok := in.(*ssa.BinOp); ok && b.Op == token.SUB && delta == nil {
-				if _, isPhi := b.X.(*ssa.Phi); isPhi {
-					if c, ok := b.Y.(*ssa.Call); ok && callObj(c.Common()) != nil && callObj(c.Common()).Name() == "Size" {
-						delta = b
+		// On every path: with the limit set and the count beyond it, no path reaches a point where the count takes effect
+		// (ResizeCpus / AllocateCpus / ReleaseCpus) without passing the assignment of the limit. Other conditions on
+		// the way (`count > 0 && ...`) are free, so a clamp that some further test can switch off is reported.
+		for _, lim := range []struct {
+			name  string
+			f     *types.Var
+			below bool // the count is below the limit (MinCpus) / above it (MaxCpus)
+		}{{"min", fMin, true}, {"max", fMax, false}} {
+			lim := lim
+			isLim := func(v ssa.Value) bool { g, _ := loadedField(unspill(v)); return g != nil && g == lim.f }
+			assume := func(cond ssa.Value) (bool, bool) {
+				_, y, op, ok := cmpOriented(cond, isLim) // limit op y
+				if !ok {
+					return false, false
+				}
+				if k, isK := constIntVal(y); isK {
+					if k != 0 {
+						return false, false
 					}
+					switch op { // the limit is set: limit > 0
+					case token.GTR, token.NEQ:
+						return true, true
+					case token.EQL, token.LEQ, token.LSS:
+						return true, false
+					}
+					return false, false
+				}
+				if lim.below { // y < limit
+					switch op {
+					case token.GTR, token.GEQ, token.NEQ:
+						return true, true
+					default:
+						return true, false
+					}
+				}
+				switch op { // y > limit
+				case token.LSS, token.LEQ, token.NEQ:
+					return true, true
+				default:
+					return true, false
 				}
 			}
-		})
-		okMax, okMin := false, false
-		if delta != nil {
-			Origins(delta.X, func(v ssa.Value) bool {
-				f, _ := loadedField(v)
-				if f == nil {
-					return false
-				}
-				in, _ := v.(ssa.Instruction)
-				for _, cf := range dominatingConds(in.Block()) {
-					// limit ? count, with the limit field on the left: MaxCpus < count / MinCpus > count (either spelling, either polarity)
-					_, _, op, ok := cmpOriented(cf.Cond, func(v ssa.Value) bool { g, _ := loadedField(v); return g != nil && g == f })
-					if !ok {
+			// the count is replaced by the limit: a store of the limit (spilled count) or a phi edge carrying it
+			clampStore := func(in ssa.Instruction) bool {
+				st, ok := in.(*ssa.Store)
+				return ok && isLim(st.Val)
+			}
+			clampEdge := func(from *ssa.BasicBlock, succ int) bool {
+				to := from.Succs[succ]
+				for i, pr := range to.Preds {
+					if pr != from {
 						continue
 					}
-					if !cf.Val {
-						op = negCmp(op)
-					}
-					if f == fMax && op == token.LSS {
-						okMax = true
-					}
-					if f == fMin && op == token.GTR {
-						okMin = true
+					for _, in := range to.Instrs {
+						phi, ok := in.(*ssa.Phi)
+						if !ok {
+							break
+						}
+						if isLim(phi.Edges[i]) {
+							return false
+						}
 					}
 				}
 				return true
+			}
+			effect := func(in ssa.Instruction) bool {
+				c, ok := in.(*ssa.Call)
+				if !ok || callObj(c.Common()) == nil {
+					return false
+				}
+				switch callObj(c.Common()).Name() {
+				case "ResizeCpus", "AllocateCpus", "ReleaseCpus":
+					return true
+				}
+				return false
+			}
+			nEffects := 0
+			AllInstrs(resize, func(in ssa.Instruction) {
+				if effect(in) {
+					nEffects++
+				}
 			})
+			key := "R2:clamp-" + lim.name
+			what := "resizeBalloon: with " + map[bool]string{true: "MinCpus", false: "MaxCpus"}[lim.below] + " set and the requested count beyond it, CPUs are moved only after the count was replaced by the limit, whatever other conditions hold"
+			if nEffects == 0 {
+				r.Undecided(key, "R2 limits", what, e.Pos(resize.Pos()), resize, "no ResizeCpus/AllocateCpus/ReleaseCpus call found")
+				continue
+			}
+			p := FindPath(PathQuery{Fn: resize, Assume: assume, Target: effect, Block: clampStore, Edge: clampEdge})
+			w := ""
+			if p != nil {
+				w = "unclamped path: " + e.pathString(p)
+			}
+			r.Check(key, "R2 limits", what, e.Pos(resize.Pos()), resize, p == nil, w, true)
 		}
-		r.Check("R2:clamp-max", "R2 limits", "resizeBalloon never sizes a balloon above its type's MaxCpus (count > MaxCpus is replaced by MaxCpus)", e.Pos(resize.Pos()), resize, okMax, "", true)
-		r.Check("R2:clamp-min", "R2 limits", "resizeBalloon never sizes a balloon below its type's MinCpus (count < MinCpus is replaced by MinCpus)", e.Pos(resize.Pos()), resize, okMin, "", true)
 		// direction: the balloon's CPU set grows (Union) only where the requested count exceeds the current one, and shrinks
 		// (Difference) only where it does not — a resize that reports success has moved towards its target
 		{
